@@ -94,6 +94,10 @@ def check_C14(tier, seed):
     rp = Report("C14", tier, seed)
     rp.trusted.update(BASE_TRUST)
     G.run_tables(rp)
+    # on-demand integer powers of the compact configuration (u64::pow instead of tables): the factors `pow` and the
+    # digit loop actually use must be the exact powers (trace harnesses in the compact configuration)
+    G.run_kani_vec(rp, "quick", seed, ["C12"], config="compact", name_filter=r"pow_decomposition|pow_concrete")
+    G.run_kani_parse(rp, "quick", seed, ["pm"], config="compact", minimal=True)
     # tables are consumed by the algorithms: a wrong entry must also break the moderate-path contract for its q
     if tier == "thorough":
         G.run_lemire(rp, "quick", seed, focus="tables")
@@ -101,8 +105,9 @@ def check_C14(tier, seed):
                   "Eisel-Lemire significands, 28 + 20 small integer powers, the used prefix (11 / 23) of the float power tables, "
                   "the 5-limb 5^135, 10 + 66 + 10 Bellerophon entries with the binary exponents the real get_small/get_large derive",
                   "values are the bytes / literals in rustc's MIR dump of the current tree, per configuration (default, compact)"]
-    rp.assumptions += ["on-demand powers of the compact/no_std configurations (u64::pow, std powf via the system libm, the bundled "
-                       "libm pow) are NOT decided here: std's powf is FFI (outside the technique); stated in DESIGN.md",
+    rp.assumptions += ["on-demand FLOAT powers of the compact/no_std configurations (std powf via the system libm = FFI, the bundled "
+                       "libm pow) are NOT decided here (outside the technique / not attempted); the on-demand INTEGER powers (u64::pow) "
+                       "are checked through the factors the compact `pow` and digit loop issue",
                        "powers of five/ten on the specification side are built by a multiplication chain inside the SMT script"]
     return rp.finish("other", "Ground SMT queries over the compiled table constants with the index symbolic: unsat means no index "
                               "violates the defining inequalities (truncation / normalisation / exactness).")
@@ -204,6 +209,14 @@ def check_C06(tier, seed):
     if tier == "quick":
         bc = {f: v[:120] for f, v in bc.items()}
     G.run_bell(rp, tier, seed, classes=bc)
+    # truncated significands are 19-digit ones: both Eisel-Lemire passes (w and w+1) must be right there
+    lc = None
+    if tier != "thorough":
+        lc = {f: [c for c in G.lemire_classes(f, tier, seed) if c[1] <= 4] for f in ("f64", "f32")}
+    G.run_lemire(rp, tier, seed, classes=lc, focus="classes-only")
+    # the big-integer operations long digit strings lean on (scaling by powers of ten, accumulation)
+    G.run_kani_vec(rp, tier, seed, ["C12"], name_filter=None if tier == "thorough" else
+                   r"large_add_from|c12_shl_\d|bigint_pow_dispatch|pow_decomposition|pow_concrete|long_mul_concrete|small_mul_logged_(0|1|2|3|62)$")
     rp.bounds += ["parse_number: the 19-digit cut, flag and exponent correction for every digit value at shapes up to 24 digits",
                   "parse_mantissa: the MAX_DIGITS cut with `max` in 1..45 as a parameter (every residue of the cut position modulo the "
                   "19-digit chunk), sticky digit iff a later digit is non-zero, trailing zeros never sticky",
@@ -242,6 +255,7 @@ def check_C07(tier, seed):
     G.run_bell(rp, tier, seed, classes=bc)
     G.run_kani_core(rp, tier, seed, ["c18_"])
     G.run_kani_parse(rp, tier, seed, ["pn"], minimal=True)
+    G.run_kani_slow(rp, tier, seed)
     rp.bounds += ["every (q, lz) class whose value can be subnormal, zero, in the top binade or infinite (quick: a seeded 500/250 of them)",
                   "early outs by decimal exponent alone: symbolic-q queries (q < smallest, q > largest, zero significand) + ground threshold facts",
                   "round primitive over its whole domain; exponent saturation of parse_number over the full i32 range (Kani)"]
@@ -269,6 +283,12 @@ def check_C10(tier, seed):
     rp.trusted.update(KANI_TRUST + COMP_TRUST)
     G.run_kani_parse(rp, tier, seed, ["pn_rel", "pm", "pn"])
     G.run_kani_slow(rp, tier, seed)
+    # different spellings of one value reach different stages (<= 19 digits: Eisel-Lemire; padded: big-integer stage):
+    # each stage must return RN of the denoted value
+    lc = None
+    if tier != "thorough":
+        lc = {f: [c for c in G.lemire_classes(f, tier, seed) if c[1] == 0] for f in ("f64", "f32")}
+    G.run_lemire(rp, tier, seed, classes=lc, focus="classes-only")
     rp.bounds += ["re-splitting: the same digit array split at two points with compensated exponent gives identical (mantissa, exponent, flag) "
                   "- shapes up to 23 digits; appended fraction zeros: value preserved (shapes listed in the evidence)",
                   "big-integer stage: the comparison exponent equals e - (number of fraction digits) for every split (slow_dispatch)"]
@@ -305,6 +325,7 @@ def check_C16(tier, seed):
     rp = Report("C16", tier, seed)
     rp.trusted.update(KANI_TRUST)
     G.run_kani_parse(rp, tier, seed, ["pn_iter", "pm"])
+    G.run_kani_slow(rp, tier, seed, fmts=("f64",))
     G.run_kani_vec(rp, tier, seed, ["C13"]) if tier == "thorough" else None
     # stale storage: large_add_from / resize read only initialised limbs (uninitialised memory is nondeterministic in CBMC)
     from . import kani as K, vecgen
@@ -369,6 +390,7 @@ def check_C04(tier, seed):
             bc = bc[::3]
         for (q, lz, many) in bc:
             bjobs.append((J.job_bell, (mpb, fmt, q, lz, many, 20 if tier == "quick" else 60, seed, 10 ** 19 - 1, True)))
+        bjobs.append((J.job_bell_early, (mpb, fmt, 60)))
     res = pool.run_jobs(bjobs, progress=1000)
     G.consume(rp, res, "compact", "bellerophon[debug-assertions]")
     # (b) loops / memory: Kani models the dev profile (overflow checks and debug assertions on): any reachable panic fails
